@@ -35,6 +35,7 @@ type c02fRun struct {
 	res      e2eResult
 	desc     string
 	staleCut bool // bytes that arrived after a silence longer than the receive timeout were cut off
+	kind     string
 }
 
 type c02fOut struct {
@@ -106,6 +107,13 @@ func c02fEvaluate(r *c02fRun) (o c02fOut) {
 	}
 	if !r.res.started {
 		o.skip = "not-started"
+		return
+	}
+	if r.kind == "size-race" {
+		// SIZE, its echo and the final ack forged so that the two ends disagree on the size without noticing:
+		// the race of the size check (KNOWN_FINDINGS size-race:e2e); the machine of Model/Transfer.v checks
+		// the size atomically (Model/Protocol.v recv_v2 has the schedule [early]): direct oracle only
+		o.skip = "size-race-scenario"
 		return
 	}
 	if r.staleCut {
@@ -215,7 +223,8 @@ func c02fEvaluate(r *c02fRun) (o c02fOut) {
 			case "MD5":
 				toks = append(toks, "M:"+hx(m.raw))
 			case "EXIT":
-				toks = append(toks, "X")
+				ns, _ := parseSaved(string(m.raw))
+				toks = append(toks, "X:"+c02fHexNames(ns))
 			case "KEEP":
 				toks = append(toks, "K")
 				continue
@@ -489,7 +498,8 @@ func c02fEvaluate(r *c02fRun) (o c02fOut) {
 						}
 						acks = append(acks, fmt.Sprintf("S:%s:%s:%d", hx(m.raw), jn, m.jsSize))
 					case "EXIT":
-						acks = append(acks, "X")
+						ns, _ := parseSaved(string(m.raw))
+						acks = append(acks, "X:"+c02fHexNames(ns))
 					case "KEEP":
 						acks = append(acks, "K")
 					case "FAIL":
